@@ -156,6 +156,11 @@ func c31RunOne(c *fw.Ctx, run int64) {
 		case x < 9: // write
 			op.Op, op.Value = "write", next
 			next++
+			if r.Intn(5) == 0 {
+				// writing the value the node already has is a write like any other
+				op.Op, op.Value = "write-of-the-current-value", n.cur
+				next--
+			}
 			c.Journal(run*100000+int64(step), op)
 			res, err := cl.Write(ctx, &ua.WriteRequest{NodesToWrite: []*ua.WriteValue{{NodeID: n.node.ID(), AttributeID: ua.AttributeIDValue,
 				Value: &ua.DataValue{EncodingMask: ua.DataValueValue, Value: ua.MustVariant(op.Value)}}}})
